@@ -152,6 +152,21 @@ def systematic(kind):
     return out
 
 
+def _fidelity(kind, rec, v, dec):
+    ok = rec["id"] == v["id"] and rec["raw_id"] == dec(v["rawId"]) and rec["client_data_json"] == dec(v["response"]["clientDataJSON"])
+    if kind == "reg":
+        ok = ok and rec["attestation_object"] == dec(v["response"]["attestationObject"])
+        tr = v["response"].get("transports")
+        exp = [t for t in tr if isinstance(t, str) and t in TRANSPORTS] if isinstance(tr, list) else None
+        ok = ok and rec["transports"] == exp
+    else:
+        ok = ok and rec["authenticator_data"] == dec(v["response"]["authenticatorData"]) and rec["signature"] == dec(v["response"]["signature"])
+        uh = v["response"].get("userHandle")
+        ok = ok and rec["user_handle"] == (dec(uh) if isinstance(uh, str) else None)
+    att = v.get("authenticatorAttachment")
+    return ok and rec["authenticator_attachment"] == (att if isinstance(att, str) else None)
+
+
 def work(tasks, idx):
     from .. import common
     res = Result()
@@ -195,7 +210,18 @@ def work(tasks, idx):
                 rec = code_d["record"]
                 import base64
                 def dec(s):
+                    if not isinstance(s, str):
+                        raise TypeError("member is not a string")
                     return base64.urlsafe_b64decode(s + "===").hex()
+                try:
+                    ok = _fidelity(kind, rec, v, dec)
+                except Exception as ex:
+                    ok = False
+                if not ok:
+                    res.violations.append({"why": "accepted credential does not equal the decoded members (or a member is not a string)",
+                                           "value": text, "code": code_d, "match": {"op": "parse_cred_json", "kind": kind, "relation": "fidelity"}})
+                ok = True
+                continue
                 ok = rec["id"] == v["id"] and rec["raw_id"] == dec(v["rawId"]) and rec["client_data_json"] == dec(v["response"]["clientDataJSON"])
                 if kind == "reg":
                     ok = ok and rec["attestation_object"] == dec(v["response"]["attestationObject"])
